@@ -30,9 +30,12 @@ LEVEL_TEXT = ("Unbounded proof: for every condition tree (any depth, any mix of 
               "kernel). The driver (post order, the if/elif of the cases, passes until nothing changes) is part of the "
               "model: for every chain of two and three conditions exhaustively, and for random chains of up to five with "
               "any pattern of handler blocks, the structure it computes is the structure the real code leaves behind, "
-              "and the printed conditions are evaluated under every assignment. Not proved: that the invariants the merge "
-              "theorem needs (pointers of graph nodes are edges, the new identifier is fresh) are kept from one merge of "
-              "the driver to the next - they hold for the initial graph by construction.")
+              "and the printed conditions are evaluated under every assignment. The passes AS A WHOLE are proved too "
+              "(Dad/ShortCircuitSound.v, struct_keeps_walks): started on any graph whose edge lists agree with its pointers, "
+              "with unused block ids from some m on and an entry nothing points at, whatever the driver merges in however "
+              "many passes, a walk from the entry of the result ends at an exit exactly when a walk from the original entry "
+              "does - the invariants (edges, unused ids, entry without predecessors) are shown to be kept from one merge "
+              "to the next; chain graphs meet the edge hypothesis for every chain (chain_edges_ok).")
 LEVEL_NOTE = ("Trusted: Coq kernel; coq/Dad/ShortCircuitModel.v, ShortCircuitGraph.v, ShortCircuitDriver.v as a rendering of "
               "Condition/ShortCircuitBlock.neg, of the meaning of a printed condition (Java's !, &&, ||, with the parentheses "
               "the writer emits), of short_circuit_struct / MergeNodes / Graph.preds / Graph.post_order and of "
@@ -181,6 +184,26 @@ def routes(g, n, negate):
             if negate:
                 neg_swap(x)
     struct = [cond_tree(x) for x in (cond_nodes_swapped(g.entry, []) if negate else cond_nodes(g.entry, []))]
+    # blocks that were merged away and removed from the graph but are still pointed at by a block of an exception handler
+    # (MergeNodes re-points the visible predecessors only) are printed first, as they stand: printing a merged block with
+    # isnot negates its first part in place (Writer.visit_short_circuit_condition), and that part is the comparison the
+    # removed block still shares; the decompiler itself does not print the removed block after the merged one
+    ghosts, seen, todo = [], set(), [g.entry]
+    in_graph = set(g.nodes)
+    while todo:
+        x = todo.pop()
+        if x in seen or not x.type.is_cond:
+            continue
+        seen.add(x)
+        if x not in in_graph:
+            ghosts.append(x)
+        todo += [x.true, x.false]
+    for x in ghosts:
+        if negate:
+            neg_swap(x)
+        w = Writer(g, None)
+        x.visit_cond(w)
+        table[x] = (str(w), x.true, x.false)
     for x in list(g.nodes):
         if x.type.is_cond:
             w = Writer(g, None)
@@ -311,10 +334,10 @@ def stats(cases, results):
 
 
 def coq_chain(case):
-    """the chain itself: per block (true target, false target, in a handler?); exits are 100 + k"""
+    """the chain itself: per block (true target, false target, in a handler?); exits are -1 - k (negative, so that no block the passes create can collide with one)"""
     n, spec = case[:2]
     ic = case[2] if len(case) > 2 else 0
-    tg = lambda t: z(t) if isinstance(t, int) else z(100 + int(t[1:]))
+    tg = lambda t: z(t) if isinstance(t, int) else z(-1 - int(t[1:]))
     return "(%s, %s)" % (z(n), coq_list(["((%s, %s), %s)" % (tg(t), tg(f), coq_bool(ic[i] if isinstance(ic, list) else (ic == 1 or (ic == 2 and i > 0)))) for i, (t, f) in enumerate(spec)]))
 
 
